@@ -37,6 +37,12 @@ Definition control_methods : list string :=
 (* the only supervisor.* method allowed to run without the mood guard *)
 Definition unguarded_allowed : list string := [ "supervisor.sendRemoteCommEvent" ].
 
+(* parameters that may be omitted (trailing, `wait`): every other documented
+   parameter is required, every undocumented one is forbidden *)
+Definition optional_trailing : list (string * Z) :=
+  [ ("supervisor.startProcess", 1%Z); ("supervisor.startProcessGroup", 1%Z); ("supervisor.startAllProcesses", 1%Z);
+    ("supervisor.stopProcess", 1%Z); ("supervisor.stopProcessGroup", 1%Z); ("supervisor.stopAllProcesses", 1%Z) ].
+
 (* functions allowed to compute a fault code with getattr(Faults, ...) *)
 Definition dynamic_fault_allowed : list string :=
   [ "_readProcessLog"; "getFaultDescription"; "readLog" ].
@@ -612,6 +618,31 @@ Proof.
   pose proof (proj1 (forallb_forall _ _) multicall_single_name_check (ns, m) I) as X. cbv beta in X; cbn [fst snd] in X.
   rewrite FI, T in X. rewrite String.eqb_refl in X. cbn [negb orb] in X.
   apply String.eqb_eq in X. subst name. exact X.
+Qed.
+
+(* the arity range the code accepts is the documented signature: at most the
+   documented parameters, at least those not listed as optional *)
+Definition arity_as_documented (i : minfo) : bool :=
+  let n := qualified (mi_ns i) (mi_name i) in
+  match lookup n doc_param_count with
+  | Some d =>
+      let opt := match lookup n optional_trailing with Some k => k | None => 0 end in
+      match mi_amax i with Some mx => mx =? d | None => false end && (mi_amin i =? d - opt)
+  | None => false
+  end.
+
+Lemma arity_documented_check : forallb arity_as_documented method_info = true.
+Proof. vm_compute. reflexivity. Qed.
+
+Theorem arity_documented name ns m i :
+  resolve root_table name = RResolved ns m -> find_info ns m method_info = Some i ->
+  arity_as_documented i = true.
+Proof.
+  intros _ FI. apply (proj1 (forallb_forall _ _) arity_documented_check).
+  clear - FI. induction method_info as [|j r IH]; simpl in FI; [discriminate|].
+  destruct (String.eqb ns (mi_ns j) && String.eqb m (mi_name j)).
+  - inversion FI; subst. left. reflexivity.
+  - right. apply IH. exact FI.
 Qed.
 
 Lemma faults_referenced_check :
